@@ -12,9 +12,22 @@ MANIFEST = dict(
            "destination iff every fixed-size destination is guarded (refuted for the unguarded addr copy, defect D2, "
            "witness addr_len=255), the three tables agree, receive/dispatch outcomes.  Tied to the code by running the "
            "extracted model and m_msg.c (public API over a socketpair, ASan+UBSan+LSan, malloc wrapped) on ~6k aimed cases "
-           "per quick run (~90k thorough), comparing the result code and every struct member.", "7 C14"),
-    note="Trusted: Coq kernel+vm_compute, gen_facts probe, extraction (ExtrOcamlBasic), harness/driver glue. The field "
-         "lists are read from the source by hand and tied by differential testing, not verified against the C text. "
+           "per quick run (~90k thorough), comparing the result code and every struct member.  libmunge's side "
+           "(MsgClientModel: m_msg_client_xfer's retry loop with the expected type it hands to m_msg_recv, munge_decode / "
+           "munge_encode with _decode_rsp / _encode_rsp and what they copy out; every parameter measured by running the "
+           "current source): a successful receive with an expected type means the bytes on the connection are a header of "
+           "exactly that type followed by the packing of the members received (unpack is the inverse of pack on what it "
+           "accepts), hence for EVERY list of byte strings a peer may answer with the call ends in an error that hands "
+           "nothing to the caller or in exactly the members of a well-formed message of the expected type; refuted when "
+           "the response is received with MUNGE_MSG_UNDEF (nested header).  Tied to the code by a scripted hostile peer on "
+           "a real Unix socket answering a client built from /repo's libmunge under ASan/UBSan (~3.9k scripts per quick "
+           "run): all header types 0..255, bodies of every type's layout, nested headers, truncation at every offset, every "
+           "length field lying, trailing bytes, scripts over the five attempts; outcome and requests compared with the "
+           "extracted model and the clause evaluated directly on libmunge's answers.", "7 C14"),
+    note="Trusted: Coq kernel+vm_compute, gen_facts probes and source-text translators (msgtables, msgclientsrc), "
+         "extraction (ExtrOcamlBasic), harness/driver glue (msg_harness.c, msgclient_harness.c incl. its peer thread). "
+         "Client side: the wording of locally generated diagnostics and the error string of a failed exchange are not "
+         "modelled; requests are those _encode_req/_decode_req build from a valid call. "
          "Time-outs and I/O errors of the socket are environment (a stream is the bytes that arrive before EOF). "
          "enc/dec_process_msg's reply contents are outside this model (C01/C09); the reply goes through the same send.",
     technique="Coq proof (generic interpreters + induction over field lists, computed table checks) + translator for "
@@ -490,7 +503,7 @@ def gallina_state(st):
 
 def _run_own(ctx):
     ctx.level = "proof"
-    proved = vlib.prove(ctx, ["Properties_C14.v"], facts=["msg", "msgtables", "msgclient"])
+    proved = vlib.prove(ctx, ["Properties_C14.v"], facts=["msg", "msgtables", "msgclient", "msgclientsrc"])
     ctx.c14_proved = proved
     ctx.log("proofs:", "ok" if proved else "BROKEN: " + getattr(ctx, "broken_obligation", "?"))
     ctx.cov["rule"] = ("proof: Properties_C14.v over MsgModel with constants, widths, sizeof(addr) and the measured addr_len "
@@ -499,8 +512,12 @@ def _run_own(ctx):
                        "the extracted model, comparing result code and every struct member; cases = messages of every "
                        "type sent and received, every truncation of valid bodies, every length field set to 0/1/exact+-1/"
                        "255/2^31-1/2^31/2^32-1, every type code 0..255 with random and valid bodies, header defects, "
-                       "nested headers, allocator refusals, maxlen edges, MUNGE_MAXIMUM_REQ_LEN edge; non-trivial = "
-                       "every case (distinct by content)")
+                       "nested headers, allocator refusals, maxlen edges, MUNGE_MAXIMUM_REQ_LEN edge; client side: "
+                       "munge_decode / munge_encode of /repo's libmunge (ASan+UBSan, retry sleeps removed) against a scripted "
+                       "peer thread on a Unix socket, one byte string per attempt: every header type 0..255, bodies of every "
+                       "type's layout, nested headers, truncations, lying length fields and pkt_len, trailing bytes, attempt "
+                       "scripts; return value, every output, the context and the requests on the wire compared with the "
+                       "extracted MsgClientModel and with the documented layout; non-trivial = every case (distinct by content)")
     oracle = vlib.build_oracle(ctx, "msg")
     ctx.c14_oracle = oracle
     R_ = vlib.REPO
@@ -674,16 +691,24 @@ def _run_own(ctx):
                       {"obligation": "correspondence MsgModel ~ m_msg.c", "case_line": l, "impl": a, "model": b,
                        "n_mismatches": len(mismatches)}, found_input=False)
     elif not proved:
-        ctx.violation("proof obligation no longer checks: %s" % getattr(ctx, "broken_obligation", "?"),
-                      {"obligation": getattr(ctx, "broken_obligation", "?"), "log": ctx.proof_log[-3000:]},
-                      found_input=False)
+        ctx.c14_unproved = True           # reported by run() unless the client phase finds a concrete failing input
 
 
 
 # =========================================================================================================
 # the client side: libmunge (m_msg_client_xfer, _decode_rsp / _encode_rsp) facing a hostile peer
 # =========================================================================================================
-ATTEMPTS = 5                    # MUNGE_SOCKET_RETRY_ATTEMPTS (the documented protocol constant; measured value in GenMsgClient.v)
+def _retry_attempts():
+    """MUNGE_SOCKET_RETRY_ATTEMPTS as the tree under test documents it (munge_defs.h); the number of receive calls actually
+    made is measured separately (GenMsgClient.xfer_attempts) and is what the model uses"""
+    try:
+        m = re.search(r"#define\s+MUNGE_SOCKET_RETRY_ATTEMPTS\s+(\d+)", open(os.path.join(vlib.REPO, "src/libcommon/munge_defs.h")).read())
+        return int(m.group(1)) if m else 5
+    except OSError:
+        return 5
+
+
+ATTEMPTS = _retry_attempts()
 SENT32 = 0xFFFFFFFF             # UID_SENTINEL / GID_SENTINEL
 TYPE_NAME = {0: "UNDEF", 1: "HDR", 2: "ENC_REQ", 3: "ENC_RSP", 4: "DEC_REQ", 5: "DEC_RSP", 6: "AUTH_FD_REQ"}
 
@@ -816,7 +841,9 @@ def client_property_holds(line, out):
         first = describe_stream(c["streams"][0]) if c["streams"] else "nothing"
         if a["err"] == 0:
             got = ("uid=%d gid=%d len=%d" % (a["uid"], a["gid"], a["len"])) if op == "D" else "cred=%r" % a["cred"]
-            return "%s returned EMUNGE_SUCCESS (%s) although %s; response 1 = %s" % (name, got, why, first)
+            j = a["conns"] - 1                               # the answer on the last connection is the one that was taken
+            taken = describe_stream(c["streams"][j]) if 0 <= j < len(c["streams"]) else "nothing"
+            return "%s returned EMUNGE_SUCCESS (%s) although %s; response %d = %s" % (name, got, why, j + 1, taken)
         if op == "D":
             for key, v in DEC_UNTOUCHED.items():
                 if a[key] != v:
@@ -891,7 +918,7 @@ def gen_client_cases(ctx):
     for op in ("D", "E"):
         exp = EXP[op]
         # 1. well-formed responses of the expected type: every output of the call comes from the message
-        for i in range(120 if T else 14):
+        for i in range(120 if T else 40):
             w, st, body = rsp_wire(rng, exp)
             add("c-valid", op, [w])
         for en in (0, 1, 7, 15, 16, 17, 200, 255):            # every kind of error_num the daemon (or anybody) may report
@@ -913,14 +940,14 @@ def gen_client_cases(ctx):
         w_ok, st_ok, body_ok = rsp_wire(rng, exp, error_num=0)
         for code in range(256):
             add("c-anytype-validbody", op, [header(code, len(body_ok), rng.getrandbits(8)) + body_ok])
-            if T or code < 8 or rng.random() < 0.15:
+            if T or code < 8 or rng.random() < 0.4:
                 add("c-anytype-empty", op, [header(code, 0)])
                 b = rnd_bytes(rng, rng.choice([1, 11, 40]))
                 add("c-anytype-random", op, [header(code, len(b)) + b])
         # 3. every real type code as header x a valid body of every message type (the body fits another unpacker)
         for hcode in range(0, 8):
             for bcode in (2, 3, 4, 5, 6):
-                for i in range(4 if T else 1):
+                for i in range(6 if T else 3):
                     _, _, b = rsp_wire(rng, bcode)
                     add("c-crosstype", op, [header(hcode, len(b), rng.getrandbits(8)) + b])
         # 4. nested headers: header type HDR whose body is a packed header naming any type (it rewrites type / retry / pkt_len),
@@ -935,7 +962,7 @@ def gen_client_cases(ctx):
             add("c-nested", op, [header(1, 4) + header(nested, 0)[:4]])
         add("c-nested", op, [header(1, HDR) + header(1, HDR) + header(exp, 0)])
         # 5. truncation: the stream ends at every offset; the header announces the truncated body
-        for i in range(6 if T else 1):
+        for i in range(8 if T else 2):
             w, st, body = rsp_wire(rng, exp, error_num=rng.choice([0, 7]))
             step = 1 if (T or len(w) < 90) else 2
             for k in range(0, len(w), step):
@@ -943,7 +970,7 @@ def gen_client_cases(ctx):
             for k in range(0, len(body), step):
                 add("c-truncated-body", op, [header(exp, k) + body[:k]])
         # 6. every length field lying (0, 1, exact-1, exact+1, 255, 2^31-1, 2^31, 2^32-1); pkt_len lying
-        for i in range(8 if T else 1):
+        for i in range(12 if T else 3):
             w, st, body = rsp_wire(rng, exp)
             for (off, wd, exact) in len_field_offsets(exp, st):
                 vals = [0, 1, exact - 1, exact + 1, 255] + ([(1 << 31) - 1, 1 << 31, (1 << 32) - 1] if wd == 4 else [4, 5, 128])
@@ -958,7 +985,7 @@ def gen_client_cases(ctx):
                 if plen >= 0:
                     add("c-pktlen", op, [header(exp, plen) + body])
         # 7. trailing bytes: after the body on the stream, and inside the body after the last field
-        for i in range(6 if T else 2):
+        for i in range(12 if T else 4):
             w, st, body = rsp_wire(rng, exp)
             add("c-trailing-stream", op, [w + rnd_bytes(rng, rng.randrange(1, 40))])
             extra = rnd_bytes(rng, rng.randrange(1, 40))
@@ -973,15 +1000,19 @@ def gen_client_cases(ctx):
         bad = [b"", header(exp, 5), header(1, HDR) + header(exp, 0), header(exp ^ 6, len(body_ok)) + body_ok, w_ok[:-1],
                header(exp, len(body_ok), magic=0) + body_ok, rnd_bytes(rng, 30)]
         for j in range(0, 7):
-            for rep in range(3 if T else 1):
+            for rep in range(6 if T else 3):
                 script = [rng.choice(bad) for _ in range(j)]
                 w, st, body = rsp_wire(rng, exp)
                 add("c-script", op, script + [w])
+        for pos in range(0, 6):                              # each hostile answer at each attempt, after plain failures
+            for hostile in (header(1, HDR) + header(exp, 0), header(1, HDR + len(body_ok)) + header(exp, 0) + body_ok,
+                            header(exp ^ 6, len(body_ok)) + body_ok, header(0, len(body_ok)) + body_ok):
+                add("c-script-pos", op, [b""] * pos + [hostile])
         w2, _, _ = rsp_wire(rng, exp)
         add("c-script", op, [w_ok, w2])                      # only the first answer counts
         add("c-script", op, [])                              # the peer never answers
         # 10. random streams with a plausible header
-        for i in range(2000 if T else 60):
+        for i in range(6000 if T else 400):
             n = rng.choice([0, 3, 11, 12, 20, 60, rng.randrange(0, 300)])
             b = bytearray(rnd_bytes(rng, n))
             if n >= HDR and rng.random() < 0.85:
@@ -998,7 +1029,7 @@ def _client_phase(ctx, oracle, proved):
     src = [os.path.join(vlib.HARNESS, "msgclient_harness.c")]
     src += [os.path.join(R_, "src/libmunge", f) for f in ("auth_send.c", "ctx.c", "decode.c", "encode.c", "m_msg_client.c", "strerror.c")]
     src += [os.path.join(R_, "src/libcommon", f) for f in ("fd.c", "m_msg.c", "str.c")]
-    exe, err = vlib.cc(ctx, "msgclient", src, extra=["-Wl,--wrap=nanosleep,--wrap=connect,--wrap=malloc", "-fsanitize-recover=signed-integer-overflow"],
+    exe, err = vlib.cc(ctx, "msgclient", src, extra=["-Wl,--wrap=nanosleep,--wrap=connect,--wrap=malloc,--wrap=poll", "-fsanitize-recover=signed-integer-overflow"],
                        libs=["-lpthread"])
     if exe is None:
         ctx.violation("client harness does not build against /repo's libmunge: " + err[-500:],
@@ -1016,12 +1047,16 @@ def _client_phase(ctx, oracle, proved):
     for k, _ in cases:
         dist[k] = dist.get(k, 0) + 1
     sock = os.path.join(ctx.tmp, "peer.sock")
-    rc2, mod, err2 = vlib.run_lines([oracle], lines, timeout=900)
+    from concurrent.futures import ThreadPoolExecutor
+    with ThreadPoolExecutor(2) as ex:            # model and implementation side by side
+        fm = ex.submit(vlib.run_lines, [oracle], lines, 900)
+        fi = ex.submit(vlib.run_lines, [exe, sock], lines, 900,
+                       {"ASAN_OPTIONS": "detect_leaks=1:abort_on_error=0:exitcode=99:allocator_may_return_null=1"})
+        rc2, mod, err2 = fm.result()
+        rc, impl, stderr = fi.result()
     if rc2 != 0 or len(mod) != len(lines):
         ctx.violation("oracle (client side) failed to run: rc=%d %s" % (rc2, err2[-300:]), {"obligation": "oracle run"}, found_input=False)
         return
-    rc, impl, stderr = vlib.run_lines([exe, sock], lines, timeout=900,
-                                      env={"ASAN_OPTIONS": "detect_leaks=1:abort_on_error=0:exitcode=99:allocator_may_return_null=1"})
     ctx.log("client side: libmunge answered %d of %d scripted peers rc=%d" % (len(impl), len(lines), rc))
     for l in lines:
         ctx.count(l)
@@ -1058,10 +1093,40 @@ def _client_phase(ctx, oracle, proved):
         if normalize_client(impl[i], mod[i]) != mod[i]:
             mism.append((l, impl[i], mod[i]))
     ctx.cov["client_cases"] = len(lines)
+    # extraction cross-check: a sample of decode cases evaluated inside Coq with vm_compute
+    samp = [i for i in range(0, len(lines), max(1, len(lines) // 40)) if lines[i].startswith("D ") and len(lines[i]) < 1200][:10]
+    if samp and proved:
+        gl = lambda b: "(map n2b [%s]%%N)" % "; ".join(str(x) for x in b)
+        exprs = []
+        for i in samp:
+            c = parse_client_case(lines[i])
+            exprs.append("match fst (client_decode (fun z => z <=? 67108864)%%Z %s [%s]) with Some r => "
+                         "[d_err r; d_uid r; d_gid r; Z.to_N (d_len r); Z.to_N (x_cipher (d_ctx r) + 1)] | None => [99%%N] end"
+                         % (gl(c["cred"]), "; ".join(gl(x) for x in c["streams"])))
+        req = ("From Coq Require Import List NArith ZArith.\nFrom MV Require Import Bytes MsgModel MsgClientModel.\n"
+               "Import ListNotations.")
+        res, e3 = vlib.coq_eval_sample(ctx, req, exprs)
+        if res is None or len(res) != len(samp):
+            ctx.violation("vm_compute cross-check of the client extraction failed to run", {"obligation": "extraction cross-check (client)",
+                          "err": (e3 or "")[-800:]}, found_input=False)
+        else:
+            bad = 0
+            for i, r in zip(samp, res):
+                nums = [int(x) for x in re.findall(r"\d+", r.split(":")[0])]
+                m = mod[i].split(" ")
+                want = [int(m[1]), int(m[14]), int(m[15]), int(m[12]), int(m[2]) + 1] if m[1] != "F" else [99]
+                if nums != want:
+                    bad += 1
+                    ctx.notes.append("client cross-check disagreement: case %s coq=%s oracle=%s" % (lines[i][:300], r[:200], mod[i][:300]))
+            ctx.cov["extraction_crosscheck_client"] = {"cases": len(samp), "disagreements": bad}
+            if bad:
+                ctx.violation("extracted oracle disagrees with vm_compute on %d client sample cases" % bad,
+                              {"obligation": "extraction cross-check (client)"}, found_input=False)
     ctx.cov["traces_validated_against_impl"] = ctx.cov.get("traces_validated_against_impl", 0) + len(lines)
     ctx.log("client side: %d direct property failures, %d model/implementation mismatches" % (len(direct), len(mism)))
     if direct:
-        direct.sort(key=lambda x: len(x[0]))                     # the shortest failing input first
+        # a success handed to the caller first, then anything handed over with an error, then the rest; shortest input first
+        direct.sort(key=lambda x: (0 if "EMUNGE_SUCCESS" in x[2] else 1 if "handed" in x[2] else 2, len(x[0])))
         l, o, why, kind = direct[0]
         c = parse_client_case(l)
         ctx.violation("%s: case %s -> %s (%d failing cases)" % (why, l[:200], o[:200], len(direct)),
@@ -1099,5 +1164,9 @@ def run(ctx):
     _run_own(ctx)
     if getattr(ctx, "c14_oracle", None):
         _client_phase(ctx, ctx.c14_oracle, getattr(ctx, "c14_proved", False))
+    if getattr(ctx, "c14_unproved", False) and not any(found for (_, _, found) in ctx.violations):
+        ctx.violation("proof obligation no longer checks: %s" % getattr(ctx, "broken_obligation", "?"),
+                      {"obligation": getattr(ctx, "broken_obligation", "?"), "log": ctx.proof_log[-3000:]},
+                      found_input=False)
     from props import fd_common
     fd_common.fd_phase(ctx)
